@@ -74,7 +74,8 @@ def to_model(c):
 
 
 def _one(args):
-    name, cfgs, maxT = args
+    name, cfgs, maxT = args[:3]
+    limit = args[3] if len(args) > 3 else 900
     mc = "---- MODULE MC_%s ----\nEXTENDS Factory\nMCConfigs == <<\n  %s\n>>\n====\n" % (
         name, ",\n  ".join(tla(to_model(c)) for c in cfgs))
     wd = os.path.join(tlc.CACHE, "tlc", "factory-%s-%d" % (name, os.getpid()))
@@ -84,7 +85,7 @@ def _one(args):
         f.write(mc)
     cfg = "CONSTANTS\n Fixed = TRUE\n Configs <- MCConfigs\n MaxT = %d\n MaxSteps = 400\nINIT Init\nNEXT Next\n" % maxT
     cfg += "".join("INVARIANT %s\n" % i for i in F_INVS) + "INVARIANT ReportOutcome\nCHECK_DEADLOCK FALSE\n"
-    r = tlc.run_tlc("MC_%s" % name, cfg, workers=8, timeout=900, workdir=wd)
+    r = tlc.run_tlc("MC_%s" % name, cfg, workers=8, timeout=limit, workdir=wd)
     out = r.as_dict()
     out["name"] = name
     out["configs"] = len(cfgs)
@@ -148,8 +149,21 @@ def leg_a(tier):
     nb = max(1, (len(C) + 15) // 16)       # small batches: TLC re-evaluates the configuration literal on every access
     batches = [C[i::nb] for i in range(nb)]
     with mp.Pool(3) as pool:
-        outs = pool.map(_one, [("b%02d" % i, b, 60) for i, b in enumerate(batches) if b])
-    res = {o["name"]: o for o in outs}
+        outs = pool.map(_one, [("b%02d" % i, b, 60, 600) for i, b in enumerate(batches) if b])
+        # a batch that did not finish in time holds a configuration whose same-instant interleavings explode: run its
+        # members one by one with a short limit and set aside (and name) those that do not finish
+        retry = []
+        for o, b in zip(list(outs), [b for b in batches if b]):
+            if o.get("timed_out"):
+                outs.remove(o)
+                retry += [("%s_%s" % (o["name"], c["name"]), [c], 60, 120) for c in b]
+        if retry:
+            outs += pool.map(_one, retry)
+    res = {}
+    for o in outs:
+        if o.get("timed_out"):
+            o["skipped"] = True          # not a failure of the design and not of the machinery: exploration budget
+        res[o["name"]] = o
     common.save_json(p, res)
     return res
 
